@@ -300,6 +300,9 @@ class SArr:
             return [rec(cells[i * step:(i + 1) * step], shape[1:]) for i in range(shape[0])]
         return rec(self.cells, self.shape)
 
+    def tobytes(self, order="C"):
+        return SBytes(self.cells, self.dtype)
+
     def item(self):
         assert self.size == 1
         return cell_to_scalar(self.cells[0], self.dtype)
@@ -570,6 +573,33 @@ class _NdarrayMeta(type):
 
 class ndarray_type(metaclass=_NdarrayMeta):
     """what the twin sees as numpy.ndarray (isinstance checks in the repo)"""
+
+
+class SBytes:
+    """ndarray.tobytes(): the raw content without shape; equal iff same dtype, same length and equal elements (forks when symbolic)"""
+
+    def __init__(self, cells, dtype):
+        self.cells, self.dtype = list(cells), dtype
+
+    def __hash__(self):
+        return 0
+
+    def __eq__(self, o):
+        if not isinstance(o, SBytes) or o.dtype.itemsize * len(o.cells) != self.dtype.itemsize * len(self.cells):
+            return False
+        if o.dtype != self.dtype:
+            raise Unsupported("comparison of byte strings of different dtypes")
+        eqs = [_cell_cmp(a, b, "eq") for a, b in zip(self.cells, o.cells)]
+        if builtins.any(e is False for e in eqs):
+            return False
+        sy = [e for e in eqs if e is not True]
+        return True if not sy else builtins.bool(SBool(z3.And(sy)))
+
+    def __ne__(self, o):
+        return not self.__eq__(o)
+
+    def __len__(self):
+        return self.dtype.itemsize * len(self.cells)
 
 
 class SMasked:
@@ -1262,6 +1292,37 @@ def asarray(x, dtype=None, **kw):
     return array(x, dtype)
 
 
+def take(a, indices, axis=None, out=None, mode="raise"):
+    if axis is not None or mode != "raise":
+        raise Unsupported("np.take options")
+    r = a[indices] if isinstance(indices, SArr) else a[_asarr(indices)]
+    if out is not None:
+        if out.size != r.size:
+            raise ValueError("output array does not match result of ndarray.take")
+        for i, v in enumerate(r.cells):
+            out._write(i, wrap_cell(v, out.dtype))
+        return out
+    return r
+
+
+def roll(a, shift, axis=None):
+    a = _asarr(a)
+    if axis is None:
+        flat = a.cells
+        k = _as_index(shift) % len(flat) if flat else 0
+        return SArr(flat[-k:] + flat[:-k] if k else list(flat), a.dtype, a.shape)
+    ax = axis % a.ndim
+    k = _as_index(shift) % a.shape[ax]
+    cs = list(itertools.product(*[range(s) for s in a.shape]))
+    pos = {c: i for i, c in enumerate(cs)}
+    cells = a.cells
+    out = []
+    for c in cs:
+        src = tuple(((x - k) % a.shape[ax]) if d == ax else x for d, x in enumerate(c))
+        out.append(cells[pos[src]])
+    return SArr(out, a.dtype, a.shape)
+
+
 def squeeze(a, axis=None):
     if axis is not None:
         raise Unsupported("squeeze(axis)")
@@ -1523,6 +1584,8 @@ def build_module():
     m.asarray = asarray
     m.atleast_1d = atleast_1d
     m.squeeze = squeeze
+    m.take = take
+    m.roll = roll
     m.zeros = zeros
     m.ones = ones
     m.zeros_like = zeros_like
